@@ -86,6 +86,7 @@ class SDict:
         i = self._find(k)
         if i < 0:
             raise KeyError(k)
+        self.rlog.append(('hit', key_type(self.entries[i][0]), self.entries[i][0]))
         return self.entries[i][1]
 
     def __setitem__(self, k, v):
